@@ -145,7 +145,7 @@ class MPBFixedFormat_infval(Contract):
     params = {'self': 'MPBFixedFormat', 's': 'bool'}
     returns = 'Float'
     properties = ['C16']
-    options = {'split_heavy': True}
+    options = {'split_heavy': True, 'symbolic_tier': 'thorough'}     # ~500 s alone: thorough tier
 
     def pre(self, s):
         return {'bounds': mpbfx_ords(self)}
